@@ -1,6 +1,7 @@
 /-
-  C10 model — the loop of `kopf._core.engines.daemons._timer`, one *run* (= one loop iteration that
-  reaches `started = clock()`) at a time. Integer ticks (the harness uses 1 tick = 1/64 s). Core Lean only.
+  C10 model — the loop of `kopf._core.engines.daemons._timer` as a state-carrying step function, one
+  loop ITERATION at a time; a *run* is an iteration in which the timer function is invoked.
+  Integer ticks (the harness uses 1 tick = 1/64 s). Core Lean only.
 
   The code, abridged (all sleeps are `aiotime.sleep(d, wakeup=stopper)`: return at once when `d ≤ 0`):
 
@@ -12,8 +13,8 @@
               while clock() - memory.idle_reset_time < handler.idle:  # the idle gate
                   sleep(memory.idle_reset_time + handler.idle - clock())
           started = clock()
-          outcomes = execute_handlers_once(...)                       # the function runs here
-          state = state.with_outcomes(outcomes)                       # delayed := now + outcome.delay
+          outcomes = execute_handlers_once(...)                       # invokes the function iff the state is awakened
+          state = state.with_outcomes(outcomes)                       # retries+1, flags, delayed := now + outcome.delay
           _, remaining = patch_and_check(patch)                       # API round trip(s) iff patch ≠ {}
           if not state.done:              sleep(state.delays)         # max(0, delayed - now)
           elif interval and sharp:        sleep(interval - (clock() - started) % interval)
@@ -21,15 +22,18 @@
           elif idle:                      while memory.idle_reset_time <= started and not stopper.is_set(): sleep(idle)
           else:                           break
 
-  After a run that FAILED FOR GOOD (PermanentError, errors=PERMANENT, retries exhausted) the state is
-  kept: it is done, so `execute_handlers_once` finds nothing awakened and invokes nothing, `with_outcomes({})`
-  changes nothing, and the loop keeps going round the interval / idle branches (or breaks, for a
-  one-shot timer) without ever calling the function again: such a run has no successor (`Next` is
-  false; `nextStartN` answers `never`, or `ended` when the loop breaks).
+  The in-memory `progression.State` of the single handler is carried from iteration to iteration
+  (`HState`, `step`). Whether an iteration invokes the function is NOT an input: `Iter.ok` ties
+  `it.res.isSome` to `awakened` of the carried state, as `execute_handlers_once` does
+  (`handlers_todo = [h for h in handlers if state[h.id].awakened]`). That a timer that failed for good is
+  never invoked again, and that it always is otherwise, are theorems (Props: `failed_is_last`,
+  `invoked_unless_failed`), not parts of a definition.
+  `memory.idle_reset_time` is either an arbitrary function of time (`View`: any timing of changes) or
+  derived from the history of processed events (`viewOf`), which makes "the last essential change" expressible.
   How the stopper enters: it is not a component of the model. Every loop of `_timer` (main loop, idle
   gate, idle-only poll loop — `stopperGuards`, checked by the translator) has `not stopper.is_set()` in
-  its condition and every sleep is woken by it, so once it is set no further run starts and the task
-  ends: a run sequence `Sched` is any PREFIX of the unstopped behaviour (`Chain.nil` at any point).
+  its condition and every sleep is woken by it, so once it is set no further iteration starts and the
+  task ends: a sequence `Sched` is any PREFIX of the unstopped behaviour (`Chain.nil` at any point).
   Preconditions under which the arithmetic equals Python's: `interval > 0` (Python's float `%` and
   Lean's `Int.emod` agree for a positive divisor and a non-negative dividend; `interval = 0` raises
   ZeroDivisionError in the sharp branch) and handler `timeout` unset (otherwise an iteration can fail
@@ -62,7 +66,7 @@ inductive Result where
   | permanent                        -- `PermanentError`
   deriving DecidableEq, Repr
 
-/-- `execution.Outcome` as far as the loop reads it: `state.done`, and the delay of a non-final one. -/
+/-- `execution.Outcome` as far as the loop reads it. -/
 inductive Outcome where
   | done                             -- final, no exception: success, or an error under errors=IGNORED
   | failed                           -- final with an exception: PermanentError, errors=PERMANENT, retries exhausted
@@ -75,7 +79,7 @@ def lookaheadRetries (cfg : Cfg) (attempt : Nat) : Bool :=
   | some n => decide (attempt + 1 ≥ n)
   | none => false
 
-/-- the `except` chain of `execute_handler_once` (timeout unset) -/
+/-- the `except` chain of `execute_handler_once` (timeout unset); `attempt` = `state.retries` -/
 def classify (cfg : Cfg) (attempt : Nat) : Result → Outcome
   | .ok => .done
   | .permanent => .failed
@@ -86,35 +90,72 @@ def classify (cfg : Cfg) (attempt : Nat) : Result → Outcome
     | .permanent => .failed
     | .temporary => if lookaheadRetries cfg attempt then .failed else .retry (some cfg.backoff)
 
-/-- One run of the timer function, with the three instants the schedule depends on. -/
-structure Run where
-  start : Int      -- `started = clock()`; the function is entered in the same instant
-  ended : Int      -- the function returned/raised; `with_outcomes` stamps `delayed = ended + delay`
-  patched : Int    -- the post-run `patch_and_check` returned (= `ended` when the patch is empty)
-  attempt : Nat     -- `state.retries` before the run (the `retry` kwarg)
-  res : Result
+/-! ### The carried state: `progression.State` of the single timer handler -/
+
+/-- `progression.HandlerState`, the fields the loop and `execute_handlers_once` read. -/
+structure HState where
+  retries : Nat
+  success : Bool
+  failure : Bool
+  delayed : Option Int      -- absolute loop time
   deriving DecidableEq, Repr
 
-def Run.WF (r : Run) : Prop := r.start ≤ r.ended ∧ r.ended ≤ r.patched
+/-- `State.from_scratch().with_handlers([handler])` -/
+def HState.fresh : HState := { retries := 0, success := false, failure := false, delayed := none }
 
-instance (r : Run) : Decidable r.WF := by unfold Run.WF; infer_instance
+/-- `HandlerState.finished`; with one active handler this is also `State.done` -/
+def HState.finished (h : HState) : Bool := h.success || h.failure
 
-def Run.out (cfg : Cfg) (r : Run) : Outcome := classify cfg r.attempt r.res
+/-- `HandlerState.sleeping` -/
+def HState.sleeping (h : HState) (now : Int) : Bool :=
+  !h.finished && (match h.delayed with | some d => decide (d > now) | none => false)
 
-/-- `retry` kwarg of the following run: the state is reset exactly when it is done without a failure
-    (after `failed` there is no following run). -/
-def nextAttempt (cfg : Cfg) (r : Run) : Nat :=
-  match r.out cfg with
-  | .retry _ => r.attempt + 1
-  | _ => 0
+/-- `HandlerState.awakened`: what `execute_handlers_once` selects for invocation -/
+def HState.awakened (h : HState) (now : Int) : Bool := !h.finished && !h.sleeping now
+
+/-- top of the loop: `if state.done and not state.counts.failure: state = fresh` -/
+def HState.atTop (h : HState) : HState := if h.finished && !h.failure then HState.fresh else h
+
+/-- `HandlerState.with_outcome(outcome)` at loop time `now` -/
+def HState.withOutcome (h : HState) (now : Int) : Outcome → HState
+  | .done => { retries := h.retries + 1, success := true, failure := false, delayed := none }
+  | .failed => { retries := h.retries + 1, success := false, failure := true, delayed := none }
+  | .retry d => { retries := h.retries + 1, success := false, failure := false, delayed := d.map (now + ·) }
+
+/-- `min(State.delays)` read at `now`: `max(0, delayed - now)`; `0` when `delayed` is None -/
+def HState.delay (h : HState) (now : Int) : Int :=
+  match h.delayed with
+  | some d => if d - now ≤ 0 then 0 else d - now
+  | none => 0
+
+/-- One loop iteration, with the three instants the schedule depends on. -/
+structure Iter where
+  start : Int             -- `started = clock()`; the function (if any) is entered in the same instant
+  ended : Int             -- `execute_handlers_once` returned; `with_outcomes` stamps `delayed = ended + delay`
+  patched : Int           -- the post-run `patch_and_check` returned (= `ended` when the patch is empty)
+  res : Option Result     -- how the function ended; `none`: nothing was awakened, nothing invoked
+  deriving DecidableEq, Repr
+
+/-- The state after the iteration `it` entered with the carried state `h`. -/
+def step (cfg : Cfg) (h : HState) (it : Iter) : HState :=
+  match it.res with
+  | some r => h.atTop.withOutcome it.ended (classify cfg h.atTop.retries r)
+  | none => h.atTop                                   -- `with_outcomes({})`
+
+/-- The `retry` kwarg the function sees in this iteration. -/
+def attemptOf (h : HState) : Nat := h.atTop.retries
+
+/-- What the code guarantees of an iteration record: time goes forward, the function is invoked exactly
+    when the carried state is awakened at `start`, and an iteration that invokes nothing takes no time
+    inside `execute_handlers_once`. -/
+def Iter.ok (h : HState) (it : Iter) : Prop :=
+  it.start ≤ it.ended ∧ it.ended ≤ it.patched ∧ it.res.isSome = h.atTop.awakened it.start ∧
+  (it.res = none → it.ended = it.start)
+
+instance (h : HState) (it : Iter) : Decidable (it.ok h) := by unfold Iter.ok; infer_instance
 
 /-- `aiotime.sleep(d)` entered at `now` returns at `now + d`, or at once when `d ≤ 0`. -/
 def sleepUntil (now d : Int) : Int := if d ≤ 0 then now else now + d
-
-/-- `state.delays` (single handler) read at `now`: `max(0, delayed - now)`; `0` when `delayed` is None. -/
-def stateDelay (ended now : Int) : Option Int → Int
-  | some d => if ended + d - now ≤ 0 then 0 else ended + d - now
-  | none => 0
 
 /-- Where the post-run branch chain leaves the loop. -/
 inductive Wake where
@@ -123,16 +164,16 @@ inductive Wake where
   | stop                   -- neither interval nor idle: one-shot
   deriving DecidableEq, Repr
 
-/-- The post-run branch chain. NB: every sleep is entered at `r.patched`, so "one interval after the
-    previous run ended" is, in the code, one interval after the end of the post-run *patch*. -/
-def wake (cfg : Cfg) (r : Run) : Wake :=
-  match r.out cfg with
-  | .retry d => .at (sleepUntil r.patched (stateDelay r.ended r.patched d))
-  | _ =>      -- `state.done`: succeeded or failed for good alike
+/-- The post-run branch chain, reading the state AFTER the iteration. NB: every sleep is entered at
+    `it.patched`, so "one interval after the previous run ended" is, in the code, one interval after the
+    end of the post-run *patch*. -/
+def wake (cfg : Cfg) (h' : HState) (it : Iter) : Wake :=
+  if !h'.finished then .at (sleepUntil it.patched (h'.delay it.patched))
+  else
     match cfg.interval with
     | some i =>
-      if cfg.sharp then .at (sleepUntil r.patched (i - (r.patched - r.start) % i))
-      else .at (sleepUntil r.patched i)
+      if cfg.sharp then .at (sleepUntil it.patched (i - (it.patched - it.start) % i))
+      else .at (sleepUntil it.patched i)
     | none =>
       match cfg.idle with
       | some idle => .poll idle
@@ -146,9 +187,9 @@ def initialWake (cfg : Cfg) (spawn : Int) : Int :=
 
 /-! ### The environment: what the loop reads of `memory.idle_reset_time`
 
-`View t` is the value of `idle_reset_time` the timer task reads at loop time `t` (the loop time of
-the last essential change processed so far; a change processed later in the same instant is not
-in it). It is an arbitrary function in the theorems (any timing of object changes). -/
+`View t` is the value of `idle_reset_time` the timer task reads at loop time `t`. In the schedule
+theorems it is an arbitrary function (any timing of object changes); `viewOf` below derives it from
+the history of processed events. -/
 abbrev View := Int → Int
 
 /-- The idle gate at the top of the loop: entered at `t`, left (towards `started = clock()`) at `t'`. -/
@@ -166,37 +207,67 @@ inductive Poll (idle : Int) (view : View) (start : Int) : Int → Int → Prop w
   | exit {p : Int} : ¬ (view p ≤ start) → Poll idle view start p p
   | again {p p' : Int} : view p ≤ start → Poll idle view start (sleepUntil p idle) p' → Poll idle view start p p'
 
-/-- `t'` is a possible start of the run that follows `r`. A run that failed for good has none: the
-    loop goes on (`wake`), but the kept state awakens nothing and the function is never invoked again. -/
-def Next (cfg : Cfg) (view : View) (r : Run) (t' : Int) : Prop :=
-  r.out cfg ≠ .failed ∧
-  match wake cfg r with
+/-- `t'` is a possible start of the iteration that follows `it`, which left the state `h'`. -/
+def Next (cfg : Cfg) (view : View) (h' : HState) (it : Iter) (t' : Int) : Prop :=
+  match wake cfg h' it with
   | .at w => Gate cfg view w t'
-  | .poll idle => ∃ p, Poll idle view r.start r.patched p ∧ Gate cfg view p t'
+  | .poll idle => ∃ p, Poll idle view it.start it.patched p ∧ Gate cfg view p t'
   | .stop => False
 
-/-- `t'` is a possible start of the first run of a timer task spawned at `spawn`. -/
+/-- `t'` is a possible start of the first iteration of a timer task spawned at `spawn`. -/
 def First (cfg : Cfg) (view : View) (spawn t' : Int) : Prop :=
   Gate cfg view (initialWake cfg spawn) t'
 
-/-- Runs following `r` within one timer task. -/
-inductive Chain (cfg : Cfg) (view : View) : Run → List Run → Prop where
-  | nil (r : Run) : Chain cfg view r []
-  | cons {r r' : Run} {rs : List Run} :
-      Next cfg view r r'.start → r'.WF → r'.attempt = nextAttempt cfg r → Chain cfg view r' rs →
-      Chain cfg view r (r' :: rs)
+/-- Iterations following `it` (entered with the carried state `h`) within one timer task. -/
+inductive Chain (cfg : Cfg) (view : View) : HState → Iter → List Iter → Prop where
+  | nil (h : HState) (it : Iter) : Chain cfg view h it []
+  | cons {h : HState} {it it' : Iter} {its : List Iter} :
+      Next cfg view (step cfg h it) it it'.start → it'.ok (step cfg h it) →
+      Chain cfg view (step cfg h it) it' its → Chain cfg view h it (it' :: its)
 
-/-- The run sequence of one timer task spawned at `spawn` (any prefix of it: a stop truncates). -/
-def Sched (cfg : Cfg) (view : View) (spawn : Int) : List Run → Prop
+/-- The iteration sequence of one timer task spawned at `spawn` (any prefix of it: a stop truncates). -/
+def Sched (cfg : Cfg) (view : View) (spawn : Int) : List Iter → Prop
   | [] => True
-  | r :: rs => First cfg view spawn r.start ∧ r.WF ∧ r.attempt = 0 ∧ Chain cfg view r rs
+  | it :: its => First cfg view spawn it.start ∧ it.ok HState.fresh ∧ Chain cfg view HState.fresh it its
 
-/-! ### When `idle_reset_time` is written (`processing._detect_causes` / `process_spawning_cause`)
+/-- The carried state with which the `n`-th iteration of a sequence is entered. -/
+def stateAt (cfg : Cfg) (its : List Iter) (n : Nat) : HState := (its.take n).foldl (step cfg) HState.fresh
 
+/-! ### `idle_reset_time` derived from the history of processed events
+
+One `Ev` per `process_resource_event` of the object that reaches `process_spawning_cause`:
 `reset = bool(diff(old, new))` where `old` is the essence stored on the object as LAST HANDLED
 (`none`: nothing stored, e.g. no change handlers at all) and `new` the essence of the event's body —
 not the essence of the previously seen version. Essences are abstracted to `Nat`. -/
+structure Ev where
+  t : Int                       -- loop time at which the event is processed
+  ess : Nat                     -- essence of the event's body (`new`)
+  lastHandled : Option Nat      -- last-handled essence the body carries (`old`)
+  deriving DecidableEq, Repr
+
 def resetsIdle (lastHandled : Option Nat) (new : Nat) : Bool := lastHandled != some new
+
+/-- the event writes `idle_reset_time` (the operator registers it as a change) -/
+def Ev.registered (e : Ev) : Bool := resetsIdle e.lastHandled e.ess
+
+/-- `memory.idle_reset_time` as read at `t`: the creation time of the memory, or the time of the latest
+    registered event processed so far (events of the same instant count as processed). -/
+def viewOf (created : Int) (evs : List Ev) (t : Int) : Int :=
+  evs.foldl (fun acc e => if e.registered && decide (e.t ≤ t) && decide (acc ≤ e.t) then e.t else acc) created
+
+/-- Times at which the object's essence changed from the previously processed version (the first sight
+    of the object counts): the property's "essential changes", as the operator could see them. -/
+def essentialTimes : Option Nat → List Ev → List Int
+  | _, [] => []
+  | prev, e :: es => (if prev = some e.ess then [] else [e.t]) ++ essentialTimes (some e.ess) es
+
+/-- The property's idle clause in full: no run starts within the idle time after an essential change. -/
+def FullIdle (idle : Int) (evs : List Ev) (its : List Iter) : Prop :=
+  ∀ it ∈ its, it.res.isSome = true → ∀ c ∈ essentialTimes none evs, c ≤ it.start → idle ≤ it.start - c
+
+/-- The exact guard under which the full clause holds: every essential change is registered. -/
+def AllEssentialRegistered (evs : List Ev) : Prop :=
+  ∀ c ∈ essentialTimes none evs, ∃ e ∈ evs, e.t = c ∧ e.registered = true
 
 /-! ### Executable form (for the step comparison with the real operator)
 
@@ -206,7 +277,6 @@ abbrev PView := Int → Option Int
 inductive Res where
   | start (t : Int)
   | ended                -- the loop broke (one-shot timer)
-  | never                -- the run failed for good: the loop goes on, the function is never invoked again
   | noObs (t : Int)     -- the model wants to read `idle_reset_time` at `t`, nothing was observed there
   | diverged             -- fuel exhausted (e.g. `idle ≤ 0` in the poll loop: the real loop spins)
   deriving DecidableEq, Repr
@@ -230,22 +300,34 @@ def pollN (idle : Int) (pv : PView) (start : Int) : Nat → Int → Res
     | none => .noObs p
     | some v => if v ≤ start then pollN idle pv start n (sleepUntil p idle) else .start p
 
-def nextStartN (cfg : Cfg) (pv : PView) (n : Nat) (r : Run) : Res :=
-  if r.out cfg = .failed then
-    (match wake cfg r with
-     | .stop => .ended
-     | _ => .never)
-  else
-    match wake cfg r with
-    | .at w => gateN cfg pv n w
-    | .poll idle =>
-      match pollN idle pv r.start n r.patched with
-      | .start p => gateN cfg pv n p
-      | other => other
-    | .stop => .ended
+/-- start of the iteration that follows `it`, which left the state `h'` -/
+def nextStartN (cfg : Cfg) (pv : PView) (n : Nat) (h' : HState) (it : Iter) : Res :=
+  match wake cfg h' it with
+  | .at w => gateN cfg pv n w
+  | .poll idle =>
+    match pollN idle pv it.start n it.patched with
+    | .start p => gateN cfg pv n p
+    | other => other
+  | .stop => .ended
 
 def firstStartN (cfg : Cfg) (pv : PView) (n : Nat) (spawn : Int) : Res :=
   gateN cfg pv n (initialWake cfg spawn)
+
+/-- the partial view agrees with the total one wherever it is defined -/
+def Extends (pv : PView) (view : View) : Prop := ∀ t v, pv t = some v → view t = v
+
+/-- Executable check that a concrete list of iteration records is a `Sched` (sound: `schedCheck_sound`). -/
+def chainCheck (cfg : Cfg) (pv : PView) (n : Nat) : HState → Iter → List Iter → Bool
+  | _, _, [] => true
+  | h, it, it' :: rest =>
+    decide (nextStartN cfg pv n (step cfg h it) it = .start it'.start) && decide (it'.ok (step cfg h it)) &&
+      chainCheck cfg pv n (step cfg h it) it' rest
+
+def schedCheck (cfg : Cfg) (pv : PView) (n : Nat) (spawn : Int) : List Iter → Bool
+  | [] => true
+  | it :: rest =>
+    decide (firstStartN cfg pv n spawn = .start it.start) && decide (it.ok HState.fresh) &&
+      chainCheck cfg pv n HState.fresh it rest
 
 /-! ### Vocabulary of the translator (`Kopf/Extracted/C10.lean` is generated over these) -/
 
@@ -265,21 +347,30 @@ structure PostAtoms where
 /-- What a branch of the chain does. -/
 inductive Post where
   | sleep (d : Int)            -- `await aiotime.sleep(d, wakeup=stopper.async_event)`
-  | idlePoll (idle : Int)      -- `while memory.idle_reset_time <= started: await aiotime.sleep(idle, …)`
+  | idlePoll (idle : Int)      -- `while memory.idle_reset_time <= started …: await aiotime.sleep(idle, …)`
   | stop                        -- `break`
   deriving DecidableEq, Repr
 
-def postAtoms (cfg : Cfg) (r : Run) : PostAtoms :=
-  { done := (match r.out cfg with | .retry _ => false | _ => true),
+def postAtoms (cfg : Cfg) (h' : HState) (it : Iter) : PostAtoms :=
+  { done := h'.finished,
     hasInterval := cfg.interval.isSome, sharp := cfg.sharp, hasIdle := cfg.idle.isSome,
     interval := cfg.interval.getD 0, idle := cfg.idle.getD 0,
-    now := r.patched, started := r.start,
-    delays := (match r.out cfg with | .retry d => stateDelay r.ended r.patched d | _ => 0) }
+    now := it.patched, started := it.start,
+    delays := h'.delay it.patched }
 
 def wakeOfPost (now : Int) : Post → Wake
   | .sleep d => .at (sleepUntil now d)
   | .idlePoll idle => .poll idle
   | .stop => .stop
+
+/-- The facts the reset at the top of the loop reads. -/
+structure TopAtoms where
+  done : Bool          -- `state.done`
+  anyFailure : Bool    -- `state.counts.failure` truthiness
+  deriving DecidableEq, Repr
+
+/-- the loop resets the state (`true`) or keeps it -/
+def resetAtTop (a : TopAtoms) : Bool := a.done && !a.anyFailure
 
 /-- The facts the two idle loops read. -/
 structure GateAtoms where
